@@ -1,28 +1,9 @@
-"""Registry: one entry per claimed property."""
+"""Registry: one JSON file per claimed property under lib/props.d/."""
+import json
+import os
 
-PROPS = {
-    "C07": {
-        "props": "Props/C07.v",
-        "classify": "Run/Classify_C07.v",
-        "explanation": "theorems about Model/Lit.v (transcription of PrettyDecimal::from_str and Display) against the declarative grammar Model/LitSpec.v; correspondence = exhaustive short strings + random long literals through the real from_str/to_string",
-        "trusted": ["rust_decimal: Decimal::try_from_i128_with_scale limits (96-bit mantissa, scale <= 28), mantissa()/scale()/is_sign_negative() accessors"],
-    },
-    "C01": {
-        "props": "Props/C01.v",
-        "classify": "Run/Classify_C01.v",
-        "explanation": "theorems about Model/Book.v (transcription of report::book_keeping add_transaction/process_posting/check_balance over exact rationals); correspondence = generated ledger text through the real parser and report::process, compared posting by posting",
-        "trusted": ["rust_decimal exact + - * within the generator's range; Decimal division compared up to 1e-18 relative", "winnow/parser glue is exercised, not modelled, at this layer"],
-    },
-    "C02": {
-        "props": "Props/C02.v",
-        "classify": "Run/Classify_C02.v",
-        "explanation": "assertions re-checked against running sums of the amounts the implementation stored, in file order; theorems about process_posting/assert_balance in Model/Book.v",
-        "trusted": ["rust_decimal exact + - * within the generator's range", "winnow/parser glue is exercised, not modelled, at this layer"],
-    },
-    "C03": {
-        "props": "Props/C03.v",
-        "classify": "Run/Classify_C03.v",
-        "explanation": "inferred (omitted / assigned) amounts re-derived from the implementation's stored amounts; theorems about the deduction branch and set_partial in Model/Book.v",
-        "trusted": ["rust_decimal exact + - * within the generator's range", "winnow/parser glue is exercised, not modelled, at this layer"],
-    },
-}
+PROPS = {}
+_d = os.path.join(os.path.dirname(os.path.abspath(__file__)), "props.d")
+for _f in sorted(os.listdir(_d)):
+    if _f.endswith(".json"):
+        PROPS[_f[:-5]] = json.load(open(os.path.join(_d, _f)))
